@@ -118,6 +118,36 @@ Theorem C20_progress_drains : forall ini rsp mtu_i mtu_r ls,
 Proof. intros ini rsp mtu_i mtu_r ls H. exact (drains_reachable P ini rsp mtu_i mtu_r ls C20_rfcomm_params_wf H). Qed.
 Print Assumptions C20_progress_drains.
 
+(* no mutual wait: in every reachable state with data queued at either end a delivery is
+   enabled - the wire is never idle while somebody still has bytes to send, however much
+   both ends write at the same time *)
+Theorem C20_no_mutual_wait : forall ini rsp mtu_i mtu_r ls,
+  wf_link_b ini rsp mtu_i mtu_r = true ->
+  let s := Rfcomm.run P (setup ini rsp mtu_i mtu_r) ls in
+  d_tx_buf (s_a s) <> [] \/ d_tx_buf (s_b s) <> [] -> s_ab s <> [] \/ s_ba s <> [].
+Proof. intros ini rsp mtu_i mtu_r ls H. exact (no_mutual_wait P ini rsp mtu_i mtu_r ls C20_rfcomm_params_wf H). Qed.
+Print Assumptions C20_no_mutual_wait.
+
+(* because the side that owes credits always sends them: process_tx never returns with the
+   receive ledger at or below the threshold, whatever its own transmit situation, and every
+   credit it adds to the ledger is on the wire (the grant rule itself is pinned to the source
+   by C20_needed_matches_source / C20_process_tx_matches_source and the translator's
+   "rx_credits_needed = self.rx_credits_needed(); while ...:" shape check) *)
+Theorem C20_credits_owed_are_sent : forall d,
+  2 <= d_mtu d -> 0 <= d_tx_credits d -> 0 <= d_rx_credits d ->
+  let '(d', frs, ok) := process_tx P d in
+  p_threshold P < d_rx_credits d' /\ d_rx_credits d' = d_rx_credits d + sum_credits frs.
+Proof. intros d. exact (process_tx_grants P d (wf_params_b_ok P C20_rfcomm_params_wf)). Qed.
+Print Assumptions C20_credits_owed_are_sent.
+
+(* the seeded rule "withhold the credits owed while out of tx credits with data queued"
+   (C20-e) deadlocks simultaneous bulk transfers: both channels empty, both buffers not *)
+Theorem C20_seeded_withhold_deadlocks :
+  let s := run_seeded (mkParams 32 16) (setup (mkPn 23 1) (mkPn 23 1) 48 48) withhold_witness in
+  s_ab s = [] /\ s_ba s = [] /\ d_tx_buf (s_a s) <> [] /\ d_tx_buf (s_b s) <> [].
+Proof. exact seeded_withhold_deadlocks. Qed.
+Print Assumptions C20_seeded_withhold_deadlocks.
+
 (* the transmit loop never runs out of the fuel the model gives it *)
 Theorem C20_model_fuel : forall ini rsp mtu_i mtu_r ls,
   wf_link_b ini rsp mtu_i mtu_r = true -> s_ok (Rfcomm.run P (setup ini rsp mtu_i mtu_r) ls) = true.
